@@ -39,6 +39,7 @@ Sorted(q) == \A i \in 1..(Len(q) - 1) : q[i] < q[i+1]
 
 Dec(e) ==
   \E s1 \in Variants(S) :
+     /\ ~BoundHit(s1)       \* the bound is checked before the scheduler is asked
      /\ Len(e.run) > 0 /\ Sorted(e.run)
      /\ Range(e.run) = MustOffer(s1) \cup Spurious(s1)
      /\ Range(e.sp) = Spurious(s1)
@@ -65,8 +66,11 @@ Rnd(e) == S' = [S EXCEPT !.slen = @ + 1, !.rv = e.m]
 
 End(e) ==
   \E s1 \in Variants(S) :
-     /\ CASE e.v = "ok" -> Ends(s1) /\ Unfinished(s1) = {}
-          [] e.v = "deadlock" -> Ends(s1) /\ Unfinished(s1) # {} /\ Range(e.bl) = Unfinished(s1)
+     /\ CASE e.v = "ok" -> \/ (~BoundHit(s1) /\ Ends(s1) /\ Unfinished(s1) = {})
+                            \* abandoned silently by a continue-after bound (or: finished exactly on the bound)
+                            \/ (BoundHit(s1) /\ (~BoundFails(s1) \/ (Ends(s1) /\ Unfinished(s1) = {})))
+          [] e.v = "deadlock" -> ~BoundHit(s1) /\ Ends(s1) /\ Unfinished(s1) # {} /\ Range(e.bl) = Unfinished(s1)
+          [] e.v = "maxsteps" -> BoundHit(s1) /\ BoundFails(s1)
           [] e.v = "panic" -> s1 = S /\ S.cur # -1 /\ PanicKind(S, S.cur) # "" /\ e.pk = PanicKind(S, S.cur)
           [] OTHER -> FALSE
      /\ S' = s1
@@ -85,5 +89,6 @@ Spec == Init /\ [][Next]_vars
 LeafInv == (Nodes[node].kids = <<>> => PrintT(<<"LEAF", node>>))
            /\ (Diag => PrintT(<<"AT", node, ToString(S)>>))
 \* every abstract-state invariant is evaluated at every step of every real execution
-SafetyInv == node = 1 \/ S.p = 0 \/ StateInv(S)
+\* (reported, not fatal: the walk goes on so that every other trace is still checked)
+SafetyInv == node = 1 \/ S.p = 0 \/ Violated(S) = {} \/ PrintT(<<"INV", node, Violated(S)>>)
 =============================================================================
